@@ -251,7 +251,8 @@ def tlc(module, cfg=None, workers=1, extra=(), env=None, timeout=1700, xmx="4g",
     cwd = cwd or SPEC
     cfg = cfg or (module + ".cfg")
     md = _metadir(tag or module)
-    jopts = ["-XX:+UseParallelGC", "-Xmx" + xmx, "-Xss64m", "-DTLA-Library=" + SPEC]
+    jopts = ["-XX:+UseParallelGC", "-Xmx" + xmx, "-Xss64m", "-DTLA-Library=" + SPEC,
+             "-Djava.io.tmpdir=" + md]   # TLC unpacks its standard modules into java.io.tmpdir: keep that out of /tmp
     if light:   # many short single-worker JVMs side by side: keep each one's helper threads few
         jopts += ["-XX:ParallelGCThreads=2", "-XX:CICompilerCount=2", "-XX:+UseSerialGC"]
         jopts.remove("-XX:+UseParallelGC")
